@@ -709,9 +709,30 @@ package lang
 //@   ensures[C08] stack-untouched: e.stackTop == old(e.stackTop)
 //@   ensures[C11] fault-latched: $faulted <==> err != nil
 
+// String literals (C13: "denote exactly their characters, with \n, \t and \\ as the only escapes, anything
+// else is an error when evaluated").  esc(s, k): byte k of the literal text is escaped, i.e. directly
+// preceded by a backslash that is not itself escaped.  olen(s, k): how many characters the first k bytes of
+// the text denote (an unescaped backslash denotes none by itself).
+//@ spec func esc(s string, k int) bool
+//@ spec func olen(s string, k int) int
+//@ axiom esc0: forall s string :: {esc(s, 0)} !esc(s, 0)
+//@ axiom escstep: forall s string, k int :: {esc(s, k+1)} 0 <= k && k < len(s) ==> (esc(s, k+1) <==> (s[k] == '\\' && !esc(s, k)))
+//@ axiom olen0: forall s string :: {olen(s, 0)} olen(s, 0) == 0
+//@ axiom olennonneg: forall s string, k int :: {olen(s, k)} 0 <= olen(s, k)
+//@ axiom olenstep: forall s string, k int :: {olen(s, k+1)} 0 <= k && k < len(s) ==> olen(s, k+1) == olen(s, k) + ((s[k] == '\\' && !esc(s, k)) ? 0 : 1)
+//@ spec func opensEscape(s string, k int) bool = s[k] == '\\' && !esc(s, k)
+//@ spec func denoted(s string, k int) int = esc(s, k) ? (s[k] == 'n' ? 10 : (s[k] == 't' ? 9 : 92)) : s[k]
+//@ spec func badEscape(s string) bool = esc(s, len(s)) || (exists j int :: 0 <= j && j < len(s) && esc(s, j) && s[j] != 'n' && s[j] != 't' && s[j] != '\\')
 //@ func Evaluator.evalString [C01,C11,C13]
 //@   requires !$faulted
 //@   updates $faulted
+//@   ensures[C13] error-iff-unknown-or-dangling-escape: (err != nil) <==> badEscape(str)
+//@   ensures[C13] denotes-exactly-its-characters: err == nil ==> len(*result0.Value.Str) == olen(str, len(str)) && (forall j int :: 0 <= j && j < len(str) && !opensEscape(str, j) ==> (*result0.Value.Str)[olen(str, j)] == denoted(str, j))
+//@   loop 0 invariant[C13] scanned-prefix-is-well-formed: i <= len(str) && !esc(str, i) && (forall j int :: 0 <= j && j < i && esc(str, j) ==> str[j] == 'n' || str[j] == 't' || str[j] == '\\')
+//@   assert[C13] dangling-backslash-is-an-escape-at-the-end: esc(str, i + 1) && i + 1 == len(str) @ fmt.Errorf#2
+//@   assert[C13] unknown-escape-is-an-escaped-byte: esc(str, i) && i < len(str) @ fmt.Errorf#1
+//@   loop 0 invariant[C13] characters-so-far-precede-the-cursor: forall j int :: 0 <= j && j < i && !opensEscape(str, j) ==> olen(str, j) < olen(str, i)
+//@   loop 0 invariant[C13] buffer-holds-the-characters-so-far: len(buf) == olen(str, i) && (forall j int :: 0 <= j && j < i && !opensEscape(str, j) ==> buf[olen(str, j)] == denoted(str, j))
 //@   ensures[C01] result-or-error: err == nil ==> result0 != nil && result0.Value.Tag == ValueStr
 //@   ensures[C01] errkind: err == nil || isPlainErr(err)
 //@   ensures[C11] fault-latched: $faulted <==> err != nil
